@@ -19,6 +19,11 @@ pub mod rt {
     }
 }
 
+#[cfg(kani)]
+pub trait Nd: Sized + kani::Arbitrary {
+    fn nd() -> Self;
+}
+#[cfg(not(kani))]
 pub trait Nd: Sized {
     fn nd() -> Self;
 }
@@ -46,7 +51,7 @@ impl Nd for bool {
     fn nd() -> Self { u8::nd() & 1 == 1 }
 }
 #[cfg(kani)]
-impl<T: Nd + kani::Arbitrary, const N: usize> Nd for [T; N] {
+impl<T: Nd, const N: usize> Nd for [T; N] {
     #[inline(always)]
     fn nd() -> Self { kani::any() }
 }
